@@ -230,9 +230,9 @@ func (y *matrixSys) apply(s *xInst, k int) (string, bool) {
 		m := s.m
 		switch o.kind {
 		case opSetEdge, opSetUnit:
-			tag := int(o.w)
-			if math.IsNaN(o.w) || math.IsInf(o.w, 0) {
-				tag = 3
+			tag := 3 // tag of the node objects handed in with the edge
+			if o.w == 1 || o.w == 2 {
+				tag = int(o.w)
 			}
 			call := func() {
 				if o.kind == opSetUnit {
@@ -365,20 +365,171 @@ func (y *matrixSys) checkHeavy(c *ctx, s *xInst) {
 	checkAdapters(c, y.label, s.g, dir, m.nodes, true, hasw, v.weight, y.cfg.q)
 }
 
-func genMatrix(g *vlib.G, cfg matrixCfg, maxStates int, heavyEvery uint64) {
-	g.Case(cfg.kind.String()+" "+cfg.variant, func(t *vlib.T) {
-		y := &matrixSys{cfg: cfg}
-		y.label, y.variant = cfg.kind.String(), cfg.variant
-		y.ops = matrixOps(&y.cfg)
-		y.col = newCollector()
-		y.checked = map[string]struct{}{}
-		y.maxStates = maxStates
-		y.heavyEvery = heavyEvery
-		runSearch(t, &y.base, vseq.System[*xInst]{
-			New:   y.newInst,
-			Apply: y.apply,
-			Key:   y.keyOf,
-			Check: y.check,
-		})
+func runMatrix(t *vlib.T, cfg matrixCfg, param string, maxStates int, heavyEvery uint64) {
+	y := &matrixSys{cfg: cfg}
+	y.label, y.variant, y.param = cfg.kind.String(), cfg.variant, param
+	y.ops = matrixOps(&y.cfg)
+	y.col = newCollector()
+	y.checked = map[string]struct{}{}
+	y.maxStates = maxStates
+	y.heavyEvery = heavyEvery
+	runSearch(t, &y.base, vseq.System[*xInst]{
+		New:   y.newInst,
+		Apply: y.apply,
+		Key:   y.keyOf,
+		Check: y.check,
 	})
+}
+
+func genMatrix(g *vlib.G, cfg matrixCfg, maxStates int, heavyEvery uint64) {
+	g.Case(cfg.kind.String()+" "+cfg.variant, func(t *vlib.T) { runMatrix(t, cfg, "", maxStates, heavyEvery) })
+}
+
+// paramValues are the values swept for the constructor parameters self and
+// absent (and, for the matrices, init): every class the code distinguishes —
+// zero, both infinities, NaN (the NaN-aware comparison isSame exists for it),
+// the unit weight SetEdge stores, and a negative value.
+func paramValues() []float64 {
+	return []float64{0, math.Inf(1), math.Inf(-1), math.NaN(), 1, -1}
+}
+
+// genMatrixSweep: one case = one search per combination (self, absent, init)
+// with self, absent from paramValues (absents lists the absent values of this
+// case) and init in {absent value (no edges), 2 (all edges present)}. The weight
+// alphabet is {2, the absent value} plus unit-weight SetEdge, so that "weight
+// equal to absent" (= no edge: the edge set of a dense graph is defined by
+// weight != absent) and, for absent = 1, SetEdge itself are covered.
+func genMatrixSweep(g *vlib.G, k xkind, n int, from bool, absents, selfs []float64, variant string, heavyEvery uint64) {
+	g.Case(k.String()+" "+variant, func(t *vlib.T) {
+		searches := int64(0)
+		for _, absent := range absents {
+			for _, self := range selfs {
+				for _, init := range []float64{absent, 2} {
+					cfg := matrixCfgOf(k, variant, n, from, init, self, absent, []float64{2, absent}, true)
+					runMatrix(t, cfg, fmt.Sprintf("self=%s absent=%s init=%s", fmtW(self), fmtW(absent), fmtW(init)), 0, heavyEvery)
+					searches++
+				}
+			}
+		}
+		t.Count("parameter_combinations", searches)
+		t.Outcome(k.String() + " parameter sweep")
+	})
+}
+
+// genMatrixConstructors: group "constructors". NewDirectedMatrixFrom /
+// NewUndirectedMatrixFrom with every node list over a small ID alphabet: the
+// documentation demands contiguous IDs 0..len-1 in any order and a panic
+// otherwise (which includes duplicates and negative IDs); an accepted list must
+// give a graph that stores exactly the node objects handed in and answers every
+// query like the model (all edges present with weight init, or none). Also the
+// plain constructors for n = 1..4.
+func genMatrixConstructors(g *vlib.G) {
+	maxLen := vlib.Pick(g, 3, 4)
+	alphabet := []int64{-1, 0, 1, 2, 3, 4}
+	type params struct{ init, self, absent float64 }
+	ps := []params{{2, 0, math.NaN()}, {math.Inf(1), 0, math.Inf(1)}, {0, -1, 0}, {1, math.NaN(), math.Inf(-1)}}
+	for _, k := range []xkind{xDirected, xUndirected} {
+		k := k
+		g.Case(k.String()+" From node lists", func(t *vlib.T) {
+			c := &ctx{col: newCollector()}
+			var lists, accepted, rejected int64
+			for L := 1; L <= maxLen; L++ {
+				radices := make([]int, L)
+				for i := range radices {
+					radices[i] = len(alphabet)
+				}
+				vlib.Product(radices, func(ix []int) bool {
+					ids := make([]int64, L)
+					srt := make([]int64, L)
+					for i, x := range ix {
+						ids[i] = alphabet[x]
+						srt[i] = ids[i]
+					}
+					sort.Slice(srt, func(i, j int) bool { return srt[i] < srt[j] })
+					legal := true
+					for i, id := range srt {
+						legal = legal && id == int64(i)
+					}
+					p := ps[int(lists)%len(ps)]
+					lists++
+					mk := func() matrixG {
+						nodes := make([]graph.Node, L)
+						for i, id := range ids {
+							nodes[i] = tNode{Id: id, Tag: 10 + i}
+						}
+						if k == xDirected {
+							return simple.NewDirectedMatrixFrom(nodes, p.init, p.self, p.absent)
+						}
+						return simple.NewUndirectedMatrixFrom(nodes, p.init, p.self, p.absent)
+					}
+					var mg matrixG
+					panicked, _ := try(func() { mg = mk() })
+					what := fmt.Sprintf("New%sFrom(IDs %v, init=%s, self=%s, absent=%s)", k.String()[len("simple."):], ids, fmtW(p.init), fmtW(p.self), fmtW(p.absent))
+					switch {
+					case !legal && !panicked:
+						c.failf("%s did not panic although the IDs are not 0..%d", what, L-1)
+					case legal && panicked:
+						c.failf("%s panicked although the IDs are contiguous", what)
+					case !legal:
+						rejected++
+					default:
+						accepted++
+						m := &xModel{directed: k == xDirected, n: L, absent: p.absent, self: p.self, nodes: map[int64]int{}, w: map[[2]int64]float64{}}
+						for i, id := range ids {
+							m.nodes[id] = 10 + i
+						}
+						for i := int64(0); i < int64(L); i++ {
+							for j := int64(0); j < int64(L); j++ {
+								if i != j {
+									m.set(i, j, p.init)
+								}
+							}
+						}
+						c.checkQueries(mg, m.view(what), cat(ints(0, L), int64(L), -1))
+					}
+					return true
+				})
+			}
+			t.Count("constructor_calls", lists)
+			t.Count("constructor_node_lists_accepted", accepted)
+			t.Count("constructor_node_lists_rejected", rejected)
+			t.Nontrivial()
+			t.Outcome(k.String() + " From constructor")
+			if len(c.errs) > 0 {
+				t.Count("untagged_violations", 1)
+				t.Count("untagged_in:constructors/"+k.String(), 1)
+			}
+			for _, e := range c.errs {
+				t.Failf("%s", e)
+			}
+		})
+		g.Case(k.String()+" plain n=1..4 all parameter values", func(t *vlib.T) {
+			c := &ctx{col: newCollector()}
+			var calls int64
+			for n := 1; n <= 4; n++ {
+				for _, absent := range paramValues() {
+					for _, self := range paramValues() {
+						for _, init := range dedupW([]float64{absent, 2, 1, self}) {
+							calls++
+							cfg := matrixCfgOf(k, "", n, false, init, self, absent, nil, false)
+							y := &matrixSys{cfg: cfg}
+							mg := newMatrixG(&cfg, nil)
+							what := fmt.Sprintf("New%s(%d, init=%s, self=%s, absent=%s)", k.String()[len("simple."):], n, fmtW(init), fmtW(self), fmtW(absent))
+							c.checkQueries(mg, y.newModel().view(what), cfg.q)
+						}
+					}
+				}
+			}
+			t.Count("constructor_calls", calls)
+			t.Nontrivial()
+			t.Outcome(k.String() + " plain constructor")
+			if len(c.errs) > 0 {
+				t.Count("untagged_violations", 1)
+				t.Count("untagged_in:constructors/"+k.String()+" plain", 1)
+			}
+			for _, e := range c.errs {
+				t.Failf("%s", e)
+			}
+		})
+	}
 }
